@@ -217,6 +217,7 @@ struct WorkerProc { pid_t pid = -1; int fd = -1; std::string buf; uint64_t cur_s
 int check_main(int argc, char **argv) {
     if (argc >= 3 && !strcmp(argv[1], "replay")) { bool quiet = argc > 3 && !strcmp(argv[3], "--quiet"); return replay_file(argv[2], quiet); }
     if (argc >= 2 && !strcmp(argv[1], "list")) { for (auto &id : all_profile_ids()) printf("%s\n", id.c_str()); return 0; }
+    if (argc >= 4 && !strcmp(argv[1], "print")) { const Profile *pf = find_profile(argv[2]); if (!pf) return 2; Program p = pf->gen(strtoull(argv[3], nullptr, 10), argc > 4); Model m; annotate(m, p); printf("%s\n", program_to_text(p, 500).c_str()); return 0; }
     if (argc >= 4 && !strcmp(argv[1], "show")) {   // show <id> <seed>: print the generated program and run it once
         const Profile *pf = find_profile(argv[2]); if (!pf) return 2;
         Program p = pf->gen(strtoull(argv[3], nullptr, 10), argc > 4); RunResult r = pf->check(p);
